@@ -239,11 +239,25 @@ def wl_snippet(ctx, idx, rng):
     ctx.describe_case(desc)
     ctx.sample(desc)
     before = ctx.counters["snippet_events"]
-    n = gen.pick(rng, [n, n, np.int64(n), np.int32(n)])
+    n_py = n
+    forms_n = [n, n, np.int64(n), np.int32(n), np.array(n)]
+    for dt_ in (np.uint8, np.int8, np.int16, np.uint16):
+        if n <= np.iinfo(dt_).max:
+            forms_n.append(dt_(n))      # narrow integer types: t + n may exceed the type's own range
+    n = forms_n[int(rng.integers(len(forms_n)))]
     try:
         out = pb.snippet(sig, targ, n)
     except Exception:
         out = None      # judged by the monitor
+    if use_dask and out is not None and room >= 1:
+        # two snippets of one lazy signal at different fractional offsets, evaluated in one graph
+        t2 = float(rng.uniform(0, room))
+        try:
+            out2 = pb.snippet(sig, t2, n_py)
+        except Exception:
+            out2 = None
+        if out2 is not None:
+            monitors.joint_compute_check(ctx, "snippet_result", [out, out2], {"cls": clsname, "dask": True}, "snippets of one Dask-backed signal")
     if ctx.counters["snippet_events"] == before:
         ctx.inconclusive_because("snippet probe did not fire")
     ctx.bucket("N" + str(N if N < 5000 else "long"), tk, form, nk, np.dtype(dtype).kind, "dask" if use_dask else "np")
